@@ -289,7 +289,16 @@ func c06Matcher(sh *explore.Shard, forest *refmodel.Forest, idx *int64) {
 			one([]string{"--exclude", "/" + p + "/"}, refmodel.Rule{Include: false, Kind: 'r', Pattern: p})
 		}
 	})
-	gen("ab/", maxPat, nil, func(p string) {
+	// prefixes are literal text: characters that mean something in a regular
+	// expression are part of the alphabet, and of the names they are matched against
+	regexNames := names
+	names = nil
+	gen("ab/.", maxName, nil, func(w string) {
+		if w != "" {
+			names = append(names, w)
+		}
+	})
+	gen("ab/.+", maxPat-1, nil, func(p string) {
 		for _, inc := range []bool{true, false} {
 			opt := "--exclude"
 			if inc {
@@ -303,6 +312,7 @@ func c06Matcher(sh *explore.Shard, forest *refmodel.Forest, idx *int64) {
 			one([]string{opt, p}, rule)
 		}
 	})
+	names = regexNames
 	sh.C.Add("matcher_pairs_compared", compared)
 	sh.C.Add("matcher_pairs_matching", matched)
 	sh.C.Add("matcher_patterns_skipped(outside the model grammar or rejected by Go regexp)", skipped)
@@ -310,6 +320,6 @@ func c06Matcher(sh *explore.Shard, forest *refmodel.Forest, idx *int64) {
 
 func init() {
 	Registry["C06"] = &Check{Level: "exploration", Worker: c06Worker, QuickBudget: 200 * time.Second, ThoroughBudget: 25 * time.Minute,
-		Rule:        "all option sequences of length <=3 (quick) / <=4 (thorough) over the option alphabet (include/exclude x prefixes cut at and off component boundaries, regexps with alternation/anchors/lazy and backtracking quantifiers, @refgroups incl. nested, rule-less and augmented built-in groups; -regexp and --refgroup spellings; every --[no-]{branches,tags,remotes,notes,stash} incl. =false) x ROOT present/absent, parsed by the real pflag + RefGroupBuilder; Categorize() of every reference of a boundary-built universe compared with an independent fold and an independent full-match regexp matcher; plus the match relation itself: every regexp over the tokens a b / . * ? + | ( ) of length <=5 (<=6) and every prefix over a b / of length <=5 (<=6), as the only rule, against every name over a b / of length <=4 (<=5). non-trivial = sequences of length >= 2 and single-pattern cases",
+		Rule:        "all option sequences of length <=3 (quick) / <=4 (thorough) over the option alphabet (include/exclude x prefixes cut at and off component boundaries, regexps with alternation/anchors/lazy and backtracking quantifiers, @refgroups incl. nested, rule-less and augmented built-in groups; -regexp and --refgroup spellings; every --[no-]{branches,tags,remotes,notes,stash} incl. =false) x ROOT present/absent, parsed by the real pflag + RefGroupBuilder; Categorize() of every reference of a boundary-built universe compared with an independent fold and an independent full-match regexp matcher; plus the match relation itself: every regexp over the tokens a b / . * ? + | ( ) of length <=5 (<=6) as the only rule against every name over a b / of length <=4 (<=5), and every prefix over a b / . + of length <=4 (<=5) against every name over a b / . of that length. non-trivial = sequences of length >= 2 and single-pattern cases",
 		Assumptions: []string{"refgroup configuration is served by a fake Configger implementing GetConfig's documented contract (C15 owns the real parser)", "regular expressions are limited to the grammar of the reference matcher (literals . * + ? | groups \\d anchors)"}}
 }
